@@ -1,8 +1,8 @@
 import MakoModel.Props.C15
 #print axioms MakoModel.C15.mtimes_whole_seconds
 #print axioms MakoModel.C15.records_filename_verbatim
-#print axioms MakoModel.C15.rewrite_iff_due_partial
-#print axioms MakoModel.C15.respelled_name_rewrite_counterexample
+#print axioms MakoModel.C15.rewrite_iff_due
+#print axioms MakoModel.C15.respelled_name_reused_regression
 #print axioms MakoModel.C15.writer_called_iff_due
 #print axioms MakoModel.C15.path_never_partial
 #print axioms MakoModel.C15.after_rewrite_current
